@@ -786,11 +786,14 @@ func runC10Seq(r *vh.Rng, maxLen int) seqResult {
 		case c < 28:
 			w.sawUser = true
 			simple(fmt.Sprintf("LCancel %d", k), func() { w.h.CancelPairingWithSKI(w.spelling(r, k)) })
-		case c < 31:
+		case c < 30:
 			simple(fmt.Sprintf("LDisconnect %d", k), func() { w.h.DisconnectSKI(w.spelling(r, k), "bye") })
 		case c < 33:
 			b := r.Bool()
-			simple("LSetAuto "+vh.B(b), func() { w.h.SetAutoAccept(b) })
+			simple("LSetAuto "+vh.B(b), func() {
+				w.h.SetAutoAccept(b)
+				w.l.Add("OAuto " + vh.B(w.h.IsAutoAcceptEnabled()))
+			})
 		case c < 36:
 			w.sawUser = true
 			w.shutdown = true
